@@ -21,7 +21,7 @@ META = {"text": "TLC explores each program exhaustively without any reduction (r
 
 def run(ctx):
     quick = ctx.quick
-    progs = M.programs(ctx, 10 if quick else 24, 3, 4)
+    progs = M.programs(ctx, 10 if quick else 24, 3, 4, kinds=M.ALL_KINDS)
     for p in progs:
         ctx.count(p, nontrivial=K.shared_objects(p))
     for p in progs[:1] + progs[-2:]:
